@@ -833,4 +833,282 @@ theorem resolve_root (w : World) (srcDir raw f : Str) (h : resolve w srcDir fals
   rw [← h, comps_append_normal _ _ _ (render_true_ne_nil root) hne' hn',
     comps_abs _ _ (isAbs_render_true root), norm_split_render root hrn]
 
+/-! ## Part E — the factored form: which components an import appends (used by C15) -/
+
+theorem takeWhile_append_all {α : Type} (p : α → Bool) (a b : List α) (h : ∀ x ∈ a, p x = true) :
+    (a ++ b).takeWhile p = a ++ b.takeWhile p := by
+  induction a with
+  | nil => rfl
+  | cons x a ih =>
+    simp only [List.cons_append, List.takeWhile_cons, h x (by simp), if_true]
+    rw [ih (fun y hy => h y (by simp [hy]))]
+
+/-- `filepath.Ext` only looks at the last component -/
+theorem ext_append_last (A l : Str) (hl : '/' ∉ l) (hA : A = [] ∨ ∃ B, A = B ++ ['/']) :
+    (ext (A ++ l) = [] ↔ '.' ∉ l) := by
+  have htw : (A ++ l).reverse.takeWhile (· ≠ '/') = l.reverse := by
+    rw [List.reverse_append, takeWhile_append_all _ _ _ (by
+      intro x hx
+      have : x ∈ l := by simpa using hx
+      simp
+      intro e; subst e; exact hl this)]
+    rcases hA with rfl | ⟨B, rfl⟩
+    · simp
+    · simp
+  unfold ext
+  simp only [htw]
+  constructor
+  · intro h hm
+    have : '.' ∈ l.reverse := by simpa using hm
+    simp [this] at h
+  · intro h
+    have : '.' ∉ l.reverse := by simpa using h
+    simp [this]
+
+theorem joinSlash_last_split (ys : List Str) (l : Str) :
+    ∃ A, joinSlash (ys ++ [l]) = A ++ l ∧ (A = [] ∨ ∃ B, A = B ++ ['/']) := by
+  refine ⟨joinSlash (ys ++ [[]]), ?_, ?_⟩
+  · have := joinSlash_append_last ys [] l
+    simpa using this.symm
+  · cases ys with
+    | nil => left; simp [joinSlash]
+    | cons y ys =>
+      right
+      refine ⟨joinSlash (y :: ys), ?_⟩
+      rw [joinSlash_append (y :: ys) [[]] (by simp) (by simp)]
+      simp [joinSlash]
+
+theorem render_last_split (r : Bool) (ys : List Str) (l : Str) :
+    ∃ A, render r (ys ++ [l]) = A ++ l ∧ (A = [] ∨ ∃ B, A = B ++ ['/']) := by
+  obtain ⟨A, hA, hA'⟩ := joinSlash_last_split ys l
+  cases r with
+  | true =>
+    refine ⟨'/' :: A, by simp [render, hA], ?_⟩
+    rcases hA' with rfl | ⟨B, rfl⟩
+    · right; exact ⟨[], rfl⟩
+    · right; exact ⟨'/' :: B, rfl⟩
+  | false =>
+    refine ⟨A, by simp [render, hA], hA'⟩
+
+theorem extAdj_snoc (xs : List Str) (l : Str) :
+    extAdj (xs ++ [l]) = if '.' ∈ l then xs ++ [l] else xs ++ [l ++ arraiExt] := by
+  unfold extAdj
+  simp
+
+/-- `fileValue`'s default extension is `extAdj` on the components (dot imports) -/
+theorem fileName_clean_append_eq (base : Str) (ns : List Str) (hb : base ≠ []) (hne : ns ≠ [])
+    (hn : ∀ c ∈ ns, Normal c) :
+    fileName (clean (base ++ '/' :: joinSlash ns)) = clean (base ++ '/' :: joinSlash (extAdj ns)) ∧
+    extAdj ns ≠ [] ∧ (∀ c ∈ extAdj ns, Normal c) := by
+  obtain ⟨xs, l, rfl⟩ : ∃ xs l, ns = xs ++ [l] :=
+    ⟨ns.dropLast, ns.getLast hne, (List.dropLast_concat_getLast hne).symm⟩
+  have hl : Normal l := hn l (by simp)
+  have hn' : ∀ c ∈ xs ++ [l ++ arraiExt], Normal c := by
+    intro c hc
+    simp at hc
+    rcases hc with hc | rfl
+    · exact hn c (by simp [hc])
+    · exact normal_append_ext _ hl
+  rw [extAdj_snoc]
+  have hcl := clean_append_normal base (xs ++ [l]) hb hne hn
+  obtain ⟨A, hA, hA'⟩ := render_last_split (isAbs base) (norm (isAbs base) (splitSlash base) ++ xs) l
+  rw [List.append_assoc] at hA
+  have hext := ext_append_last A l hl.2.2.2 hA'
+  unfold fileName
+  by_cases hdot : '.' ∈ l
+  · have : ext (clean (base ++ '/' :: joinSlash (xs ++ [l]))) ≠ [] := by
+      rw [hcl, hA]; exact fun e => (hext.1 e) hdot
+    simp only [this, if_false, hdot, if_true]
+    exact ⟨trivial, by simp, hn⟩
+  · have : ext (clean (base ++ '/' :: joinSlash (xs ++ [l]))) = [] := by
+      rw [hcl, hA]; exact hext.2 hdot
+    simp only [this, if_true, hdot, if_false]
+    refine ⟨?_, by simp, hn'⟩
+    rw [clean_append_normal base _ hb (by simp) hn', hcl, ← List.append_assoc, render_append_last,
+      List.append_assoc]
+
+/-- …and for module-rooted imports -/
+theorem fileName_append_eq (a : Str) (ms : List Str) (hne : ms ≠ []) (hn : ∀ c ∈ ms, Normal c) :
+    fileName (a ++ '/' :: joinSlash ms) = a ++ '/' :: joinSlash (extAdj ms) ∧
+    extAdj ms ≠ [] ∧ (∀ c ∈ extAdj ms, Normal c) := by
+  obtain ⟨xs, l, rfl⟩ : ∃ xs l, ms = xs ++ [l] :=
+    ⟨ms.dropLast, ms.getLast hne, (List.dropLast_concat_getLast hne).symm⟩
+  have hl : Normal l := hn l (by simp)
+  have hn' : ∀ c ∈ xs ++ [l ++ arraiExt], Normal c := by
+    intro c hc
+    simp at hc
+    rcases hc with hc | rfl
+    · exact hn c (by simp [hc])
+    · exact normal_append_ext _ hl
+  rw [extAdj_snoc]
+  obtain ⟨A, hA, hA'⟩ := joinSlash_last_split xs l
+  have hA2 : a ++ '/' :: joinSlash (xs ++ [l]) = (a ++ '/' :: A) ++ l := by rw [hA]; simp
+  have hA2' : (a ++ '/' :: A) = [] ∨ ∃ B, (a ++ '/' :: A) = B ++ ['/'] := by
+    right
+    rcases hA' with rfl | ⟨B, rfl⟩
+    · exact ⟨a, rfl⟩
+    · exact ⟨a ++ '/' :: B, by simp⟩
+  have hext := ext_append_last (a ++ '/' :: A) l hl.2.2.2 hA2'
+  unfold fileName
+  by_cases hdot : '.' ∈ l
+  · have : ext (a ++ '/' :: joinSlash (xs ++ [l])) ≠ [] := by
+      rw [hA2]; exact fun e => (hext.1 e) hdot
+    simp only [this, if_false, hdot, if_true]
+    exact ⟨trivial, by simp, hn⟩
+  · have : ext (a ++ '/' :: joinSlash (xs ++ [l])) = [] := by
+      rw [hA2]; exact hext.2 hdot
+    simp only [this, if_true, hdot, if_false]
+    refine ⟨?_, by simp, hn'⟩
+    rw [← joinSlash_append_last]; simp
+
+theorem localPath_root_rel (srcDir raw : Str) (fr : Bool) (ip : Str) (h : localPath srcDir false raw = .ok (fr, ip)) :
+    ∃ ns, ns ≠ [] ∧ (∀ c ∈ ns, Normal c) ∧ ip = joinSlash ns ∧
+      rootRel raw = .ok (extAdj (splitSlash (removeDDS (joinSlash ns)))) := by
+  unfold localPath at h
+  simp only [Bool.not_false, Bool.not_true, Bool.false_eq_true, if_false] at h
+  split at h
+  · cases h
+  rename_i h1
+  split at h
+  · cases h
+  split at h
+  · cases h
+  rename_i h3
+  split at h
+  · cases h
+  injection h with h
+  injection h with hfr hip
+  have h1' : hasPrefix (trim ws raw) slash = true := by simpa using h1
+  obtain ⟨rest, hname⟩ := hasPrefix_cons_slash _ h1'
+  have habs : isAbs (trim ws raw) = true := by rw [hname, isAbs_cons]; simp
+  have hn := norm_rooted_normal _ (splitSlash_noslash_mem (trim ws raw))
+  rw [clean_abs _ habs] at h3 hip
+  have hrr : rootRel raw = (if norm true (splitSlash (trim ws raw)) = [] then Except.error Err.noFile
+      else Except.ok (extAdj (splitSlash (replaceAll (joinSlash (norm true (splitSlash (trim ws raw)))) ['.', '.', '/'] [])))) := by
+    unfold rootRel
+    simp [h1']
+  generalize norm true (splitSlash (trim ws raw)) = ns at hn h3 hip hrr
+  have hne : ns ≠ [] := by
+    intro e; subst e
+    apply h3
+    left
+    simp [render, joinSlash, trim, trimRight, trimLeft]
+  refine ⟨ns, hne, hn, ?_, ?_⟩
+  · simp only [render, if_true] at hip
+    rw [trim_slash_render_true ns hne hn, clean_joinSlash_normal ns hne hn] at hip
+    exact hip.symm
+  · rw [hrr, if_neg hne, replaceAll_dds]
+
+theorem localPath_dot_rel (srcDir raw : Str) (fr : Bool) (ip : Str) (h : localPath srcDir true raw = .ok (fr, ip)) :
+    srcDir ≠ [] ∧ ∃ ns, ns ≠ [] ∧ (∀ c ∈ ns, Normal c) ∧ ip = clean (srcDir ++ '/' :: joinSlash ns) ∧
+      dotRel raw = .ok (extAdj ns) := by
+  unfold localPath at h
+  simp only [Bool.not_false, Bool.not_true, if_true] at h
+  split at h
+  · cases h
+  rename_i h1
+  split at h
+  · cases h
+  rename_i h2
+  split at h
+  · cases h
+  rename_i h3
+  split at h
+  · cases h
+  rename_i h4
+  injection h with h
+  injection h with hfr hip
+  have h1' : hasPrefix (trim ws raw) slash = true := by simpa using h1
+  have habs : isAbs ('.' :: trim ws raw) = false := by rw [isAbs_cons]; simp
+  rw [clean_rel _ habs] at h2 h3 hip
+  have hdr : dotRel raw = (if hasPrefix (render false (norm false (splitSlash ('.' :: trim ws raw)))) dd = true
+      then Except.error Err.outside
+      else if norm false (splitSlash ('.' :: trim ws raw)) = [] then Except.error Err.noFile
+      else Except.ok (extAdj (norm false (splitSlash ('.' :: trim ws raw))))) := by
+    unfold dotRel
+    simp [h1']
+  have hsl := splitSlash_noslash_mem ('.' :: trim ws raw)
+  have hrel := foldl_relOk (splitSlash ('.' :: trim ws raw)) [] ⟨[], 0, by simp, by simp⟩ hsl
+  obtain ⟨ms, k, hst, hms⟩ := hrel
+  have hcs : norm false (splitSlash ('.' :: trim ws raw)) = List.replicate k dd ++ ms.reverse := by
+    simp [norm, hst]
+  rw [hcs] at h2 h3 hip hdr
+  have hk : k = 0 := by
+    cases k with
+    | zero => rfl
+    | succ k =>
+      exfalso
+      apply h2
+      have : render false (List.replicate (k + 1) dd ++ ms.reverse) = joinSlash (dd :: (List.replicate k dd ++ ms.reverse)) := by
+        simp [render, List.replicate]
+      rw [this, hasPrefix_joinSlash_dd]
+  subst hk
+  simp only [List.replicate, List.nil_append] at h2 h3 hip hdr
+  have hn : ∀ c ∈ ms.reverse, Normal c := fun c hc => hms c (by simpa using hc)
+  have hne : ms.reverse ≠ [] := by
+    intro e
+    apply h3
+    right
+    rw [e]
+    simp [render, dot1, trim, trimRight, trimLeft]
+  refine ⟨h4, ms.reverse, hne, hn, ?_, ?_⟩
+  · have hr : render false ms.reverse = joinSlash ms.reverse := by simp [render, hne]
+    rw [hr, trim_slash_joinSlash _ hne hn, join2 _ _ h4] at hip
+    exact hip.symm
+  · rw [hdr, if_neg h2, if_neg hne]
+
+/-- `//{./raw}`: whenever the string-level pipeline resolves, the factored form `dotRel` gives the
+components it appends to the source directory -/
+theorem resolve_dot_rel (w : World) (srcDir raw f : Str) (h : resolve w srcDir true raw = .ok f) :
+    ∃ ns, dotRel raw = .ok ns ∧ comps w.cwd f = comps w.cwd srcDir ++ ns := by
+  unfold resolve at h
+  split at h
+  · cases h
+  rename_i fr ip hl
+  obtain ⟨hsd, ns, hne, hn, hip, hdr⟩ := localPath_dot_rel _ _ _ _ hl
+  have hfr : fr = false := (localPath_dot _ _ _ _ hl).1
+  subst hfr
+  simp only [importLocalFile, Bool.false_eq_true, if_false] at h
+  injection h with h
+  obtain ⟨hf, hne', hn'⟩ := fileName_clean_append_eq srcDir ns hsd hne hn
+  rw [hip, hf] at h
+  refine ⟨extAdj ns, hdr, ?_⟩
+  rw [← h, comps_clean, comps_append_normal _ _ _ hsd hne' hn']
+
+/-- `//{raw}`: whenever the string-level pipeline resolves, `rootRel` gives the components it appends to
+the module root -/
+theorem resolve_root_rel (w : World) (srcDir raw f : Str) (h : resolve w srcDir false raw = .ok f) :
+    ∃ ms root, rootRel raw = .ok ms ∧ findRoot w srcDir = some root ∧ comps w.cwd f = root ++ ms := by
+  unfold resolve at h
+  split at h
+  · cases h
+  rename_i fr ip hl
+  obtain ⟨ns, hne, hn, hip, hrr⟩ := localPath_root_rel _ _ _ _ hl
+  have hfr : fr = true := (localPath_root _ _ _ _ hl).1
+  subst hfr
+  simp only [importLocalFile, if_true] at h
+  split at h
+  · cases h
+  rename_i root hroot
+  injection h with h
+  have hrel : hasPrefix ip slash = false := by
+    rw [hip]
+    cases ns with
+    | nil => exact absurd rfl hne
+    | cons c r =>
+      have hc := hn c (by simp)
+      exact isAbs_joinSlash c r hc.1 hc.2.2.2
+  simp only [hrel, Bool.not_false, if_true, replaceAll_dds] at h
+  have hms := removeDDS_normal ns hne hn
+  have hj := joinSlash_splitSlash (removeDDS (joinSlash ns))
+  rw [hip, ← hj] at h
+  obtain ⟨hf, hne', hn'⟩ := fileName_append_eq (render true root) _ (splitSlash_ne_nil _) hms
+  rw [hf] at h
+  have hrn : ∀ c ∈ root, Normal c := by
+    intro c hc
+    exact comps_normal w.cwd srcDir c ((findRoot_prefix w srcDir root hroot).subset hc)
+  refine ⟨_, root, hrr, hroot, ?_⟩
+  rw [← h, comps_append_normal _ _ _ (render_true_ne_nil root) hne' hn',
+    comps_abs _ _ (isAbs_render_true root), norm_split_render root hrn]
+
 end Arrai.C16
